@@ -317,6 +317,11 @@ func (w *World) resolve(store string, row *Row, path string) (vals []val, isSet 
 	id, _ := row.V[parts[0]].(string)
 	tr := w.Rows[info.Target][id]
 	if tr == nil {
+		if rest == "id" && row.V[parts[0]] != nil {
+			// the id of whatever a reference names is the reference's own value (fk.id is read off the fk field), also
+			// when it names nothing - here: a reference holding the empty string
+			return []val{{v: id}}, false, TStr, true
+		}
 		sub, subSet, t, ok2 := w.resolve(info.Target, &Row{V: map[string]any{}}, rest)
 		_ = sub
 		if !ok2 {
@@ -433,6 +438,25 @@ func compare(v val, typ Type, op string, lits []Lit) bool {
 	}
 	if v.null {
 		return neg // null operand: every comparison false except != and the negated forms
+	}
+	if positive == "in" || positive == "between" {
+		// int-to-float coercion works on the whole operand list: one float among the bounds / elements makes the
+		// comparison a float64 comparison for all of them (int64 values beyond 2^53 then compare as their nearest
+		// float64, e.g. MinInt64 and MinInt64+1 are the same number there)
+		anyFloat := false
+		for _, l := range lits {
+			anyFloat = anyFloat || l.T == TFloat
+		}
+		if anyFloat {
+			conv := make([]Lit, len(lits))
+			for i, l := range lits {
+				if l.T == TInt {
+					l = LFloat(float64(l.I), l.Text)
+				}
+				conv[i] = l
+			}
+			lits = conv
+		}
 	}
 	res := false
 	switch positive {
